@@ -91,6 +91,7 @@ class Outcome:
         self.known_printed = []
         self.runs = []        # (label, lines, RunResult) of every suite run, for the extra predicates
         self.theorems = []
+        self.translated = None
 
 
 def prove(o):
@@ -151,6 +152,14 @@ def prove(o):
             o.broken.append(dict(kind="proof-obligation", file=f, line=line, statement=stmt, error=msg))
         else:
             o.broken.append(dict(kind="proof-obligation", file="?", line=0, statement=None, error=out[-1500:]))
+
+
+def translated_summary(o):
+    t = getattr(o, "translated", None)
+    if not isinstance(t, dict):
+        return "report unavailable (%s)" % (str(t)[:120],)
+    bad = {k: v for k, v in t.items() if not str(v).startswith("ok")}
+    return "%d functions translated" % (len(t) - len(bad)) + ("; NOT translated: " + "; ".join("%s (%s)" % (k, str(v)[:80]) for k, v in bad.items()) if bad else "")
 
 
 def run_suite(o, cx, name, variant="asan", sgn=None, lines=None, label=None):
@@ -224,6 +233,8 @@ def write_evidence(o, wall, violations):
         "Coq 8.16.1 kernel incl. the bytecode VM (vm_compute); no native_compute",
         "Print Assumptions under every property theorem: " + ("; ".join(o.assumptions_seen) or "n/a"),
         "translator tools/dumpdata.c + tools/dumpconsts.c (data regenerated from /repo on this run), the C compiler as parser",
+        "logic translator tools/c2coq.py + clang's JSON AST (Gen/CFuns.v, Gen/CApi.v regenerated from /repo on this run): " + translated_summary(o),
+        "libc bsearch: a contract (hypothesis HBS of the search ties); the translator's event model of the dependency table and the instantiations zkdf / znfc / Dz named in DESIGN 11.4",
         "extraction: ExtrOcamlBasic only (Extract Inductive bool, option, unit, list, prod, sumbool, sumor; Extract Inlined Constant andb, orb, negb-free); no Extract Constant of our own; OCaml 4.13.1",
         "correspondence harness (harness/*.py, cdriver.c, mdriver.ml, oracle.c); gcc with ASan+UBSan",
         "modelled rather than verified: C integer/pointer semantics (hand-written Gallina mirrors tied by differential execution), libc bsearch/memcpy/memset, sizes of C types for this ABI, automatic storage as named objects, API calls as atomic steps",
@@ -262,6 +273,7 @@ def check(pid, tier, seed):
             info = core.regenerate()
             if info.get("privconsts") != "generated":
                 o.notes.append(info["privconsts"])
+            o.translated = info.get("c2coq")
             prove(o)
             core.build_model()
             core.build_cdriver("asan")
